@@ -175,9 +175,13 @@ def run(case, drv) -> Outcome:
     rhs = A.conj().T @ (W @ yv) + lam_d * x0.reshape(-1).to(torch.complex128)
     st, rec = call(lambda: RegularizedIterativeSENSEReconstruction(None, fourier_op=F, csm=csm, noise=noise, dcf=dcf, n_iterations=case['iters'], regularization_data=x0, regularization_weight=lam,
                                                                    regularization_op=Bop)(kd))
+    # a singular system (undersampling without coil sensitivities and without regularisation: A^H W A is a projection) is outside
+    # the statement - CG is defined for positive definite systems, and beyond the first step float32 noise in the null space is
+    # amplified without bound both in the library and in any reference; only the first iterate is compared there
+    well_posed = float(torch.linalg.cond(H)) < 1e6 or case['iters'] == 1
     if st != 'ok':
         viol = viol or v('iterative-raises', f'RegularizedIterativeSENSEReconstruction raises {rec}')
-    else:
+    elif well_posed:
         want_it = dense_cg(H, rhs, rhs.clone(), case['iters'])
         if rel(rec.data, want_it) > 5 * TOL:
             viol = viol or v('iterative', f'iterate {case["iters"]} differs from CG on (A^H W A + lam B) x = A^H W y + lam x0 started at the right-hand side (rel {rel(rec.data, want_it):.2e})')
